@@ -97,6 +97,9 @@ inductive Kind where
   /-- starts with `:` -/
   | comment
   | id
+  /-- an `id:` line whose (trimmed) value is NOT a valid HTTP header field value: a control character other than tab, NUL,
+      DEL, a CR inside (oracle bit computed by the harness; `.id` is an id line whose value is one — the empty value included) -/
+  | idUnsafe
   /-- `event:` and the trimmed event name -/
   | event (name : Text)
   | data (p : Payload)
@@ -316,6 +319,53 @@ def getStep (F : Facts) (H : List Text) (st : GetSt) (l : Line) : GetSt :=
 
 def getRun (F : Facts) (H : List Text) (st : GetSt) (ls : List Line) : GetSt := ls.foldl (getStep F H) st
 
+/-! ## the Streamable client's `lastEventID` (echoed as `Last-Event-ID` on every later POST / GET)
+
+  `handleSSEResponse` stores the trimmed value of every `id:` line it reads in `t.lastEventID`; `handleGetSSEEvents` does the
+  same and, when it dispatches an event, stores the event's id once more (`processSSEEvent`: `t.lastEventID = eventID`, the
+  empty string when the event had no id line) and forgets `eventID`.  `send` / `connectGetSSE` put a non-empty
+  `t.lastEventID` into the `Last-Event-ID` header; net/http refuses to send a request one of whose header values is not a
+  valid field value.  Tracked here: whether the two strings are valid field values (the empty string is: no header is set). -/
+
+structure IdSt where
+  /-- `eventID` of the GET-stream reader is a valid header field value -/
+  ev : Bool := true
+  /-- `t.lastEventID` is -/
+  last : Bool := true
+  deriving DecidableEq, Repr
+
+def idOfKind : Kind → Option Bool
+  | .id => some true
+  | .idUnsafe => some false
+  | _ => none
+
+/-- POST-SSE reader: the line is trimmed first (indentation does not matter); nothing is read once the call has returned -/
+def postIdStep (req : Nat) (H : List Text) (p : PostSt × IdSt) (l : Line) : PostSt × IdSt :=
+  (postStep req H p.1 l,
+   if p.1.done.isSome then p.2
+   else match idOfKind l.kind with
+     | some b => { p.2 with last := b }
+     | none => p.2)
+
+def postIdRun (req : Nat) (H : List Text) (p : PostSt × IdSt) (ls : List Line) : PostSt × IdSt := ls.foldl (postIdStep req H) p
+
+/-- GET-stream reader: an id line counts only when it is not indented; dispatching an event stores the event's id (the empty
+    one when it had none) and forgets it -/
+def getIdStep (F : Facts) (H : List Text) (p : GetSt × IdSt) (l : Line) : GetSt × IdSt :=
+  (getStep F H p.1 l,
+   if p.1.halt.isSome || tooLong F.getLimit l.size then p.2
+   else match l.kind, l.indent with
+     | .blank, _ => if p.1.data.isSome then ⟨true, p.2.ev⟩ else p.2
+     | .id, false => ⟨true, true⟩
+     | .idUnsafe, false => ⟨false, false⟩
+     | _, _ => p.2)
+
+def getIdRun (F : Facts) (H : List Text) (p : GetSt × IdSt) (ls : List Line) : GetSt × IdSt := ls.foldl (getIdStep F H) p
+
+/-- a later request of the same client can be sent: the stored id is a valid field value, or (`chk`, regenerated fact
+    `Mcp.Gen.rdIdChecked`) the code makes sure that only valid ones are stored / sent -/
+def laterCallOk (chk : Bool) (i : IdSt) : Bool := chk || i.last
+
 /-! ## pending tables of the two shared-stream transports -/
 
 /-- calls registered and what was delivered to each (first delivery wins: the channel has room for one, the caller
@@ -491,6 +541,12 @@ def postInert (req : Nat) (l : Line) : Bool :=
     | some (.obj m) => !postAddressed req m && notifDecodes m
     | some .null => true
     | _ => false
+  | _ => true
+
+/-- the line is not an `id:` line whose value cannot travel in a header -/
+def idSafeLine (l : Line) : Bool :=
+  match l.kind with
+  | .idUnsafe => false
   | _ => true
 
 /-- the payload is a JSON object whose id selects call `c` in the legacy transport's table (`%v` equality) -/
